@@ -2998,6 +2998,14 @@ impl Compiler {
                 self.compile_enum_init_expression(expr, dst, enum_obj, prior_members)
             }
 
+            // Type assertions and non-null assertions are erased
+            Expression::TypeAssertion(ta) => {
+                self.compile_enum_init_expression(&ta.expression, dst, enum_obj, prior_members)
+            }
+            Expression::NonNull(nn) => {
+                self.compile_enum_init_expression(&nn.expression, dst, enum_obj, prior_members)
+            }
+
             // For other expressions (literals, etc.), compile normally
             _ => self.compile_expression(expr, dst),
         }
